@@ -216,7 +216,10 @@ def main():
             def used_leaf():
                 # a leaf that already owns (smaller) vectors: what a data manager reloads after an invalidation
                 two = [emb.key(r) for r in (2, 4)]
-                return leafcls(two) if is_set else leafcls({k: emb.val(1) for k in two})
+                src = leafcls(two) if is_set else leafcls({k: emb.val(1) for k in two})
+                b = leafcls()
+                b.__setstate__(src.__getstate__())      # (loaded: its vectors are exactly two long)
+                return b
             bigstate = (leafcls(big) if is_set else leafcls({k: emb.val(1) for k in big})).__getstate__()
             for tname, mk, st_of in (('leaf-setstate-retry', lambda: leafcls(), lambda: other.__getstate__()),
                                      ('used-leaf-setstate-retry', used_leaf, lambda: bigstate),
